@@ -91,7 +91,8 @@ class AllocMachine(Interp):
         if isinstance(v, dict) and isinstance(vid, StringAttr):
             b = Buf(vid.data, v.get((1,)))
             self.t += 1
-            self.events.append(("alloc", b.bid, self.t, b.ptr, v.get((0,))))
+            dims = list(op.results[0].type.get_shape()) if hasattr(op.results[0].type, "get_shape") else None
+            self.events.append(("alloc", b.bid, self.t, b.ptr, v.get((0,)), {k: x for k, x in v.items() if isinstance(k, tuple)}, dims))
             self.set_results(op, [b])
         else:
             self.set_results(op, [v] * len(op.results))
@@ -375,6 +376,17 @@ def run_placement_case(case, res):
                 first[e[1]] = e[2]
                 last.setdefault(e[1], e[2])
                 ptr[e[1]] = e[3]
+                # the descriptor handed to the rest of the program must describe this allocation: base offset 0 (the layout's own
+                # offset is part of the type and of the allocated size), extents = the buffer's dimensions
+                desc, dims = e[5], e[6]
+                R.bump(res, "descriptors_checked")
+                off = desc.get((2,))
+                if isinstance(off, int) and off != 0 and not found:
+                    found = {"kind": "descriptor-moves-buffer-outside-allocation", "detail": f"{e[1]}: descriptor offset {off} on an allocation of exactly the layout's extent", "case": case}
+                if dims is not None and all(d >= 0 for d in dims) and not found:
+                    got = [desc.get((3, i)) for i in range(len(dims))]
+                    if got != dims:
+                        found = {"kind": "descriptor-moves-buffer-outside-allocation", "detail": f"{e[1]}: descriptor extents {got} for a buffer of shape {dims}", "case": case}
             elif e[0] == "use":
                 R.bump(res, "uses_observed")
                 last[e[1]] = e[2]
